@@ -376,3 +376,52 @@ def elemloops(facts: CppFacts):
     res.samples = [f"{res.instances} element loops: start 0, `<` count, unit stride"]
     res.analysed = ["runtime/cpp/emboss_array_view.h", "runtime/cpp/emboss_text_util.h"]
     return res
+
+
+def subwindow(facts: CppFacts):
+    """R-SUBWINDOW (C01/C02): GetOffsetStorage(offset, size) of a bit block hands out the sub-window [offset, offset+size) in
+    the block's *own* coordinates.  Its ok flag must therefore be `<own ok> && offset + size <= <own extent>` -- exactly the
+    two parameters on the left, the block's own length (`size_`, or the kBufferSizeInBits constant) on the right -- and a
+    window class (one with `offset_`) passes `offset_ + offset` on as the absolute start.  Counting `offset_` in the bound
+    as well (it is already inside size_'s frame) rejects sub-fields that end in the last offset_ bits; dropping a term
+    accepts sub-fields that stick out."""
+    res = RuleResult("R-SUBWINDOW")
+    for m in facts.methods:
+        if m.name != "GetOffsetStorage":
+            continue
+        short = m.cls.rsplit("::", 1)[-1]
+        if short not in ("OffsetBitBlock", "BitBlock"):
+            continue
+        body = " ".join(re.sub(r"//[^\n]*", "", m.body).split())
+        res.instances += 1
+        key = f"{m.file}|{short}::GetOffsetStorage"
+        params = [(p[1] if isinstance(p, (tuple, list)) else str(p).split()[-1].strip("&*")) for p in (getattr(m, "params", None) or [])]
+        if len(params) < 2:
+            params = ["offset", "size"]
+        po, ps = params[0], params[1]
+        cm = re.search(r"([\w\s+()]+?)\s*<=\s*([\w:]+)", body)
+        if not cm:
+            res.add(key + "|no-bound", f"{short}::GetOffsetStorage hands out sub-storage without an `offset + size <= extent` bound",
+                    m.file, m.line, f"{short}::GetOffsetStorage")
+            continue
+        lhs = cm.group(1)
+        # keep only the sum right of the last `&&`
+        lhs = lhs.split("&&")[-1]
+        terms = sorted(t.strip() for t in lhs.replace("(", " ").replace(")", " ").split("+") if t.strip())
+        rhs = cm.group(2)
+        if terms != sorted([po, ps]):
+            res.add(key + "|bound-lhs", f"{short}::GetOffsetStorage bounds `{' + '.join(terms)}` (expected `{po} + {ps}`, the sub-window "
+                    f"in the block's own coordinates) by `{rhs}`", m.file, m.line, f"{short}::GetOffsetStorage")
+        want_rhs = "size_" if short == "OffsetBitBlock" else None
+        if (want_rhs and rhs != want_rhs) or (not want_rhs and not re.fullmatch(r"k\w*SizeInBits", rhs)):
+            res.add(key + "|bound-rhs", f"{short}::GetOffsetStorage compares the sub-window's end with `{rhs}`, not the block's own "
+                    "length", m.file, m.line, f"{short}::GetOffsetStorage")
+        if short == "OffsetBitBlock" and not re.search(r"\boffset_\s*\+\s*" + re.escape(po) + r"\b|\b" + re.escape(po) + r"\s*\+\s*offset_\b", body):
+            res.add(key + "|start", "OffsetBitBlock::GetOffsetStorage does not pass `offset_ + offset` as the absolute start of the "
+                    "sub-window", m.file, m.line, "OffsetBitBlock::GetOffsetStorage")
+        if not re.search(r"(ok_|Ok\(\))\s*&&", body):
+            res.add(key + "|ok", f"{short}::GetOffsetStorage does not propagate its own ok state", m.file, m.line, f"{short}::GetOffsetStorage")
+    if res.instances < 2 and not res.findings:
+        raise AnalysisError(f"only {res.instances} bit-block GetOffsetStorage methods found")
+    res.analysed = [MEM]
+    return res
